@@ -299,3 +299,34 @@ def base_call_predicate(prog: Program, fac: FuncInfo, w: FuncInfo):
     def pred(c: ast.Call) -> bool:  # type: ignore[misc]
         return isinstance(c.func, ast.Name) and c.func.id in names
     return pred
+
+
+def unexpected_carried(prog: Program, fi: FuncInfo, h: Node) -> tuple[set[str], set[str]]:
+    """(carried, allowed): variables whose value flows from one iteration of loop `h` into the next, and the subset that is
+    harmless: output accumulators that are only appended to and never read inside the loop, and one-way switches assigned
+    from loop-invariant values."""
+    flow = prog.flow(fi)
+    carried = flow.loop_carried(h)
+    body = flow.loop_body_nodes(h)
+    allowed: set[str] = set()
+    for v in carried:
+        defs_in_body = [d for n in body for d in flow.defs_at[n] if d.var == v]
+        if defs_in_body and all(d.kind == "assign" and d.value is not None and
+                                not (prog.slice(fi, d.value, d.node).defs & set(defs_in_body)) for d in defs_in_body):
+            if all(dd.node not in body for d in defs_in_body for dd in prog.slice(fi, d.value, d.node).defs):
+                allowed.add(v)
+        appends_only = defs_in_body and all(d.kind == "mutate" and isinstance(d.value, ast.Call) and isinstance(d.value.func, ast.Attribute)
+                                            and d.value.func.attr in ("append", "extend") for d in defs_in_body)
+        other_reads = False
+        for n in body:
+            for ex in flow.node_exprs(n):
+                for sub in walk_no_nested(ex):
+                    if isinstance(sub, ast.Name) and sub.id == v and isinstance(sub.ctx, ast.Load):
+                        from ..loader import parent as _parent
+
+                        pp = _parent(sub)
+                        if not (isinstance(pp, ast.Attribute) and pp.attr in ("append", "extend")):
+                            other_reads = True
+        if appends_only and not other_reads:
+            allowed.add(v)
+    return carried, allowed
